@@ -1,18 +1,31 @@
 """
-C06 — constants of the line wrapper and of the multi-line printers, read off the source with `ast`.
+C06 — constants of the line wrapper and of the multi-line printers, read off the BEHAVIOUR of the working tree.
 
-  misc.py  wrap_line            -> shortMax (longest line returned unchanged), width / indents / flags handed to
-                                   textwrap.wrap, the suffix appended to every non-final piece (' =\\n') and the
-                                   string the pieces are joined with (' ')
-  cards.py FVARs.__str__        -> group size (7), line prefix ('FVAR   '), value separator ('   ')
-  cards.py SFACTable._extend_sfac_text -> line prefix ('SFAC '), element separator ('  ')
+The reading is done by `extract/probe_c06.py` in an interpreter of its own (it imports the package from the tree under
+test, with `textwrap.TextWrapper.wrap` replaced by a recorder, runs the three functions on probe inputs and solves for
+the constants; see its docstring). It does not look at how the code is spelled, so helper functions, module constants,
+a module-level TextWrapper, `glue.join(pieces)` instead of an append loop, comprehension vs. loop, f-string vs. `+` …
+all read the same; code that no longer has the SHAPE the model has (one length threshold, one call of the text wrapper
+with the whole line and fixed options, one glue between the pieces; prefix + sep.join(group) per group of fixed size)
+is reported as lost, with the probe on which the shape broke.
+
+  misc.wrap_line                -> shortMax (longest line returned unchanged), width / indents / flags of the
+                                   TextWrapper at the time `wrap` is called, the glue between two pieces split into
+                                   suffix (up to and including its last line break: ' =\n') and sep (the rest: ' ')
+  str(Shelxfile.fvars)          -> group size (7), line prefix ('FVAR   '), value separator ('   ')
+  repr(Shelxfile.sfac_table)    -> line prefix ('SFAC '), element separator ('  ')
 
 Written to lean/ShelxModel/Extracted/Wrap.lean (namespace Shelx.Extracted.Wrap). `ShelxProps/C06.lean` proves
 `consts_ok` about exactly these definitions by `decide`, so an edited width breaks the proof on the next run.
 """
-import ast
+import json
+import subprocess
+import sys
+from pathlib import Path
 
 import extract
+
+HERE = Path(__file__).resolve().parent
 
 
 def lean_chars(s: str) -> str:
@@ -31,162 +44,38 @@ def lean_chars(s: str) -> str:
     return '([' + ', '.join(one(c) for c in s) + '] : List Char)'
 
 
-def const_env(fn):
-    """simple `name = <int/str constant expression>` assignments of a function body (first assignment wins)"""
-    env = {}
-    for node in ast.walk(fn):
-        if isinstance(node, ast.Assign) and len(node.targets) == 1 and isinstance(node.targets[0], ast.Name):
-            try:
-                v = ev(node.value, env)
-            except ValueError:
-                continue
-            env.setdefault(node.targets[0].id, v)
-    return env
+def run_probe(repo):
+    """the constants as the working tree BEHAVES (extract/probe_c06.py, in an interpreter of its own)"""
+    p = subprocess.run([sys.executable, str(HERE / 'probe_c06.py'), '--repo', str(repo)],
+                       stdout=subprocess.PIPE, stderr=subprocess.PIPE, text=True, timeout=300,
+                       env={'PATH': '/usr/bin:/bin', 'PYTHONDONTWRITEBYTECODE': '1', 'PYTHONHASHSEED': '0'})
+    if p.returncode != 0:
+        raise ValueError(f'probe_c06.py failed: {p.stderr[-400:]}')
+    try:
+        return json.loads(p.stdout[p.stdout.index('{'):])
+    except ValueError:
+        raise ValueError(f'probe_c06.py printed no result: {p.stdout[-200:]} {p.stderr[-200:]}')
 
 
-def ev(node, env):
-    if isinstance(node, ast.Constant) and isinstance(node.value, (int, str, bool)):
-        return node.value
-    if isinstance(node, ast.Name) and node.id in env:
-        return env[node.id]
-    if isinstance(node, ast.BinOp) and isinstance(node.op, (ast.Add, ast.Sub, ast.Mult)):
-        a, b = ev(node.left, env), ev(node.right, env)
-        if isinstance(a, bool) or isinstance(b, bool) or type(a) is not type(b):
-            raise ValueError
-        if isinstance(node.op, ast.Add):
-            return a + b
-        if isinstance(a, int):
-            return a - b if isinstance(node.op, ast.Sub) else a * b
-    if isinstance(node, ast.UnaryOp) and isinstance(node.op, ast.USub):
-        v = ev(node.operand, env)
-        if isinstance(v, int):
-            return -v
-    raise ValueError(ast.dump(node))
+def is_nat(x):
+    return isinstance(x, int) and not isinstance(x, bool) and x >= 0
 
 
-def is_len_of(node, name=None):
-    return (isinstance(node, ast.Call) and isinstance(node.func, ast.Name) and node.func.id == 'len' and len(node.args) == 1
-            and isinstance(node.args[0], ast.Name) and (name is None or node.args[0].id == name))
-
-
-def read_wrap_line(repo):
-    tree = extract.parse(repo, 'shelxfile/misc/misc.py')
-    fn = extract.find(tree, 'wrap_line')
-    if fn is None:
-        raise ValueError('misc.wrap_line not found')
-    param = fn.args.args[0].arg
-    env = const_env(fn)
-    c = dict(initial_indent='', subsequent_indent='', drop_whitespace=True, replace_whitespace=True, break_on_hyphens=True,
-             break_long_words=True, expand_tabs=True, width=70)
-    # the textwrap call
-    call = None
-    for n in ast.walk(fn):
-        if isinstance(n, ast.Call):
-            f = n.func
-            nm = f.attr if isinstance(f, ast.Attribute) else f.id if isinstance(f, ast.Name) else None
-            if nm == 'wrap' and (not isinstance(f, ast.Attribute) or (isinstance(f.value, ast.Name) and f.value.id == 'textwrap')):
-                call = n
-    if call is None:
-        raise ValueError('wrap_line: no textwrap.wrap(...) call')
-    if len(call.args) >= 2:
-        c['width'] = ev(call.args[1], env)
-    if len(call.args) > 2:
-        raise ValueError('wrap_line: more than two positional arguments to textwrap.wrap')
-    for kw in call.keywords:
-        if kw.arg not in c:
-            raise ValueError(f'wrap_line: textwrap option {kw.arg} is not modelled')
-        c[kw.arg] = ev(kw.value, env)
-    if not isinstance(c['width'], int) or isinstance(c['width'], bool) or c['width'] < 0:
-        raise ValueError('wrap_line: width is not a natural number')
-    # early return:  if len(line) < K: ... return line
-    short = None
-    for n in fn.body:
-        if isinstance(n, ast.If) and isinstance(n.test, ast.Compare) and len(n.test.ops) == 1 \
-                and any(isinstance(x, ast.Return) for x in n.body) and not n.orelse:
-            l, op, r = n.test.left, n.test.ops[0], n.test.comparators[0]
-            if is_len_of(l, param):
-                k = ev(r, env)
-                short = k - 1 if isinstance(op, ast.Lt) else k if isinstance(op, ast.LtE) else None
-            elif is_len_of(r, param):
-                k = ev(l, env)
-                short = k - 1 if isinstance(op, ast.Gt) else k if isinstance(op, ast.GtE) else None
-            break
-    if short is None or short < 0:
-        raise ValueError('wrap_line: early return `if len(line) < K: return line` not recognised')
-    # suffix of every non-final piece:  ln += ' =\n'   (or ln = ln + ' =\n')
-    suffix = None
-    for n in ast.walk(fn):
-        if isinstance(n, ast.AugAssign) and isinstance(n.op, ast.Add):
-            try:
-                v = ev(n.value, env)
-            except ValueError:
-                continue
-            if isinstance(v, str):
-                suffix = v
-        elif isinstance(n, ast.Assign) and isinstance(n.value, ast.BinOp) and isinstance(n.value.op, ast.Add) \
-                and isinstance(n.value.left, ast.Name) and isinstance(n.targets[0], ast.Name) and n.targets[0].id == n.value.left.id:
-            try:
-                v = ev(n.value.right, env)
-            except ValueError:
-                continue
-            if isinstance(v, str):
-                suffix = v
-    if suffix is None:
-        raise ValueError("wrap_line: suffix `ln += ' =\\n'` not recognised")
-    # the list the pieces are appended to, and the string it is joined with
-    lists = {n.func.value.id for n in ast.walk(fn) if isinstance(n, ast.Call) and isinstance(n.func, ast.Attribute)
-             and n.func.attr == 'append' and isinstance(n.func.value, ast.Name)}
-    sep = None
-    for n in ast.walk(fn):
-        if isinstance(n, ast.Call) and isinstance(n.func, ast.Attribute) and n.func.attr == 'join' and len(n.args) == 1 \
-                and isinstance(n.args[0], ast.Name) and n.args[0].id in lists:
-            v = ev(n.func.value, env)
-            if isinstance(v, str):
-                sep = v
-    if sep is None:
-        raise ValueError("wrap_line: `' '.join(newline)` not recognised")
-    c.update(short=short, suffix=suffix, sep=sep)
-    return c
-
-
-def read_fvars(repo):
-    tree = extract.parse(repo, 'shelxfile/shelx/cards.py')
-    fn = extract.find(tree, 'FVARs.__str__')
-    if fn is None:
-        raise ValueError('FVARs.__str__ not found')
-    env = const_env(fn)
-    size = prefix = sep = linesep = None
-    for n in ast.walk(fn):
-        if isinstance(n, ast.Call) and isinstance(n.func, ast.Name) and n.func.id == 'chunks' and len(n.args) == 2:
-            size = ev(n.args[1], env)
-        if isinstance(n, ast.ListComp):
-            e = n.elt
-            if isinstance(e, ast.Call) and isinstance(e.func, ast.Attribute) and e.func.attr == 'join' and isinstance(e.func.value, ast.Constant):
-                sep = e.func.value.value
-            if isinstance(e, ast.BinOp) and isinstance(e.op, ast.Add) and isinstance(e.left, ast.Constant) and isinstance(e.left.value, str):
-                prefix = e.left.value
-        if isinstance(n, ast.Return) and isinstance(n.value, ast.Call) and isinstance(n.value.func, ast.Attribute) \
-                and n.value.func.attr == 'join' and isinstance(n.value.func.value, ast.Constant):
-            linesep = n.value.func.value.value
-    if not isinstance(size, int) or isinstance(size, bool) or size < 0 or None in (prefix, sep) or linesep != '\n':
-        raise ValueError(f'FVARs.__str__ not recognised (size={size!r}, prefix={prefix!r}, sep={sep!r}, linesep={linesep!r})')
-    return dict(size=size, prefix=prefix, sep=sep)
-
-
-def read_sfac(repo):
-    tree = extract.parse(repo, 'shelxfile/shelx/cards.py')
-    fn = extract.find(tree, 'SFACTable._extend_sfac_text')
-    if fn is None:
-        raise ValueError('SFACTable._extend_sfac_text not found')
-    for n in ast.walk(fn):
-        if isinstance(n, ast.JoinedStr) and len(n.values) == 2 and isinstance(n.values[0], ast.Constant) \
-                and isinstance(n.values[1], ast.FormattedValue):
-            head = n.values[0].value
-            v = n.values[1].value
-            if isinstance(v, ast.Call) and isinstance(v.func, ast.Attribute) and v.func.attr == 'join' \
-                    and isinstance(v.func.value, ast.Constant) and head.startswith('\n'):
-                return dict(prefix=head[1:], sep=v.func.value.value)
-    raise ValueError("SFACTable._extend_sfac_text: f\"\\nSFAC {'  '.join(elements)}\" not recognised")
+def check_part(key, part):
+    """the shape of what the probe printed (it runs code of the tree under test: nothing it says is taken on trust)"""
+    if not isinstance(part, dict):
+        raise ValueError(f'probe result is {part!r}')
+    if 'lost' in part:
+        raise ValueError(str(part['lost']))
+    want = dict(wrap=dict(short=is_nat, width=is_nat, initial_indent=str, subsequent_indent=str, suffix=str, sep=str,
+                          drop_whitespace=bool, break_on_hyphens=bool, break_long_words=bool, expand_tabs=bool,
+                          replace_whitespace=bool),
+                fvar=dict(size=is_nat, prefix=str, sep=str), sfac=dict(prefix=str, sep=str))[key]
+    for k, t in want.items():
+        v = part.get(k)
+        if not (t(v) if t is is_nat else isinstance(v, t)):
+            raise ValueError(f'probe result {k} = {v!r}')
+    return {k: part[k] for k in want}
 
 
 LAST_KNOWN = dict(
@@ -199,26 +88,26 @@ def emit(out, w, fv, sf):
     b = lambda x: 'true' if x else 'false'
     text = extract.HEADER + f'''namespace Shelx.Extracted.Wrap
 
-/-- misc.wrap_line: a line of at most this many characters is returned unchanged -/
+/-- misc.wrap_line: a line of at most this many characters is returned unchanged (does not reach the text wrapper) -/
 def shortMax : Nat := {w['short']}
-/-- textwrap.wrap(width=...) -/
+/-- options of the textwrap.TextWrapper at the time its `wrap` is called -/
 def width : Nat := {w['width']}
 def initialIndent : List Char := {lean_chars(w['initial_indent'])}
 def indent : List Char := {lean_chars(w['subsequent_indent'])}
-/-- appended to every piece but the last -/
+/-- the text between two pieces is suffix ++ sep: suffix = that text up to and including its last line break -/
 def suffix : List Char := {lean_chars(w['suffix'])}
-/-- the pieces (with suffix) are joined with this string -/
+/-- … and sep = the rest of it (what a continuation line begins with) -/
 def sep : List Char := {lean_chars(w['sep'])}
 def dropWhitespace : Bool := {b(w['drop_whitespace'])}
 def breakOnHyphens : Bool := {b(w['break_on_hyphens'])}
 def breakLongWords : Bool := {b(w['break_long_words'])}
 
-/-- FVARs.__str__ -/
+/-- str(Shelxfile.fvars) -/
 def fvarChunk : Nat := {fv['size']}
 def fvarPrefix : List Char := {lean_chars(fv['prefix'])}
 def fvarSep : List Char := {lean_chars(fv['sep'])}
 
-/-- SFACTable._extend_sfac_text -/
+/-- repr(Shelxfile.sfac_table), plain elements -/
 def sfacPrefix : List Char := {lean_chars(sf['prefix'])}
 def sfacSep : List Char := {lean_chars(sf['sep'])}
 
@@ -231,11 +120,19 @@ end Shelx.Extracted.Wrap
 def tables_c06(repo, out):
     lost = []
     parts = {}
-    for key, fn in (('wrap', read_wrap_line), ('fvar', read_fvars), ('sfac', read_sfac)):
+    try:
+        probed = run_probe(repo)
+    except (ValueError, OSError, subprocess.SubprocessError) as e:
+        probed = {}
+        lost.append(dict(props=['C06'], what=f'tables_c06: {e}'))
+    for key in ('wrap', 'fvar', 'sfac'):
         try:
-            parts[key] = fn(repo)
-        except (ValueError, OSError, SyntaxError, IndexError, AttributeError, TypeError) as e:
-            lost.append(dict(props=['C06'], what=f'tables_c06/{key}: {e}'))
+            if key not in probed:
+                raise ValueError('no result from the probe')
+            parts[key] = check_part(key, probed[key])
+        except ValueError as e:
+            if probed:
+                lost.append(dict(props=['C06'], what=f'tables_c06/{key}: {e}'))
             parts[key] = LAST_KNOWN[key]
     emit(out, parts['wrap'], parts['fvar'], parts['sfac'])
     return lost
